@@ -338,3 +338,78 @@ def serialize(ast, var_index):
         raise Unmodelled("annotation on an inner node")
     toks = go(ast)
     return toks, orders
+
+
+# ------------------------------------------------------------------------------------------------ concrete evaluation of claripy ASTs
+def ev_ast(n, env):
+    """value of a claripy AST under env (dict variable name -> int); independent of claripy's backends.
+    None = division by zero.  Raises Unmodelled for operators outside the vocabulary."""
+    op = n.op
+    if op == "BVS":
+        return env[n.args[0]]
+    if op == "BVV":
+        return n.args[0]
+    if op == "BoolV":
+        return bool(n.args[0])
+    a = [ev_ast(x, env) if hasattr(x, "op") else x for x in n.args]
+    if any(x is None for x in a):
+        return None
+    if op in ("__add__", "__mul__", "__and__", "__or__", "__xor__"):
+        w = n.size()
+        r = a[0]
+        for x in a[1:]:
+            r = {"__add__": r + x, "__mul__": r * x, "__and__": r & x, "__or__": r | x, "__xor__": r ^ x}[op] & M(w)
+        return r
+    if op == "__sub__":
+        w = n.size()
+        r = a[0]
+        for x in a[1:]:
+            r = (r - x) & M(w)
+        return r
+    if op == "__floordiv__":
+        return None if a[1] == 0 else a[0] // a[1]
+    if op == "__mod__":
+        return None if a[1] == 0 else a[0] % a[1]
+    if op == "__lshift__":
+        return vsa.c_shl(a[0], a[1], n.size())
+    if op == "LShR":
+        return vsa.c_lshr(a[0], a[1], n.size())
+    if op == "__rshift__":
+        return vsa.c_ashr(a[0], a[1], n.size())
+    if op == "__neg__":
+        return (-a[0]) & M(n.size())
+    if op == "__invert__":
+        return a[0] ^ M(n.size())
+    if op == "ZeroExt":
+        return a[1]
+    if op == "SignExt":
+        w = n.args[1].size()
+        return sgn(a[1], w) & M(w + n.args[0])
+    if op == "Extract":
+        return (a[2] >> n.args[1]) & M(n.args[0] - n.args[1] + 1)
+    if op == "Concat":
+        r = 0
+        for x, node in zip(a, n.args):
+            r = (r << node.size()) | x
+        return r
+    if op == "If":
+        return a[1] if a[0] else a[2]
+    if op in _CMP:
+        w = n.args[0].size() if hasattr(n.args[0], "size") and n.args[0].op not in _BOOL_OPS else None
+        if w is None:       # Boolean (dis)equality
+            return (a[0] == a[1]) if op == "__eq__" else (a[0] != a[1])
+        return bool(vsa.CMP[_CMP[op]][1](a[0], a[1], w))
+    if op == "Not":
+        return not a[0]
+    if op == "And":
+        return all(a)
+    if op == "Or":
+        return any(a)
+    if op == "Reverse":
+        w = n.size()
+        return int.from_bytes(a[0].to_bytes(w // 8, "big"), "little")
+    raise Unmodelled(op)
+
+
+_BOOL_OPS = {"BoolV", "BoolS", "And", "Or", "Not", "ULT", "ULE", "UGT", "UGE", "SLT", "SLE", "SGT", "SGE", "__eq__", "__ne__",
+             "__lt__", "__le__", "__gt__", "__ge__"}
